@@ -66,8 +66,28 @@ mod regex {
     impl<'h> Match<'h> {
         #[verifier::external_body]
         pub fn range(&self) -> (r: Range<usize>)
-            ensures r.start == match_view(*self).start, r.end == match_view(*self).end, r.start <= r.end,
+            ensures r.start == match_view(*self).start, r.end == match_view(*self).end, r.start <= r.end, match_view(*self).start <= match_view(*self).end,
                 r.end <= isize::MAX, // byte offsets into a str
+        { unimplemented!() }
+
+        #[verifier::external_body]
+        pub fn start(&self) -> (r: usize)
+            ensures r == match_view(*self).start, r <= isize::MAX,
+        { unimplemented!() }
+
+        #[verifier::external_body]
+        pub fn end(&self) -> (r: usize)
+            ensures r == match_view(*self).end, r <= isize::MAX,
+        { unimplemented!() }
+
+        #[verifier::external_body]
+        pub fn len(&self) -> (r: usize)
+            ensures r == match_view(*self).end - match_view(*self).start,
+        { unimplemented!() }
+
+        #[verifier::external_body]
+        pub fn is_empty(&self) -> (r: bool)
+            ensures r == (match_view(*self).end == match_view(*self).start),
         { unimplemented!() }
 
         #[verifier::external_body]
